@@ -37,6 +37,7 @@ CONTRIB['x-sim-obs-a'] = ['alpha', 'beta', 'flag']
 CONTRIB['x-sim-obs-b'] = ['name', 'meta']
 CONTRIB['x-sim-obs-c'] = ['seen_ms', 'seen_any', 'label']
 CONTRIB['x-sim-obs-d'] = ['channel', 'enabled', 'label']        # channel and enabled are declared with default= (7, False)
+CONTRIB['x-sim-obs-e'] = ['name', 'extensions']                 # 'extensions' is not in the type's own property list: the decorator adds it
 OBS_D_DEFAULTS = {'channel': 7, 'enabled': False}
 TS_POOL = ['2016-01-01T00:00:00Z', '2016-06-19T14:20:40.5Z', '2038-01-19T03:14:08.000001Z', '1970-01-01T00:00:00Z', '2016-01-01T00:00:00.123Z']
 TS_POOL_MS = [t for t in TS_POOL if t != '2038-01-19T03:14:08.000001Z']
@@ -221,6 +222,14 @@ def gen_item(rng, n):
                 c[k] = rng.choice(vals)
         if some():
             c['label'] = pick_str(rng) or 'l'
+        nc['note'] = pick_str(rng)
+    elif t == 'x-sim-obs-e':
+        # a contributing property that every observable gets from the decorator (extensions), next to one of the type's own
+        if some():
+            c['name'] = rng.choice(['n1', 'n2', pick_str(rng) or 'n'])
+        if some() or not c:
+            c['extensions'] = {'extension-definition--' + C.mkuuid(rng.randrange(2), 'c06ext'): {
+                'extension_type': 'property-extension', 'rank': rng.choice([1, 2, 3]), 'label': rng.choice(['l', 'm'])}}
         nc['note'] = pick_str(rng)
     elif t == 'x-sim-obs-a':
         if some():
@@ -416,6 +425,10 @@ class C06(Profile):
                                                 ('label', StringProperty()), ('note', StringProperty())],
                                 id_contrib_props=['channel', 'enabled', 'label'])
         class ObsD(object):
+            pass
+
+        @s.v21.CustomObservable('x-sim-obs-e', [('name', StringProperty()), ('note', StringProperty())], id_contrib_props=['name', 'extensions'])
+        class ObsE(object):
             pass
         items = plan['items']
         seen = {}       # item index -> {id}
